@@ -16,9 +16,11 @@ EXTENDS LoadScript
 KeyValueOf(op) == IF "ks" \in DOMAIN op THEN <<"leaf", "str", <<"str", op.ks>>>> ELSE <<"leaf", "i64", IntSmall(op.ki)>>
 
 RECURSIVE TreeOfOp(_), TreesOfOps(_, _, _)
+\* {"op":"base"}: the members written by a base class land in the same object (BaseObject<T>), in place
 TreesOfOps(ops, i, withKeys) ==
   IF i > Len(ops) THEN <<>>
-  ELSE (IF withKeys THEN <<<<KeyValueOf(ops[i]), TreeOfOp(ops[i])>>>> ELSE <<TreeOfOp(ops[i])>>) \o TreesOfOps(ops, i + 1, withKeys)
+  ELSE (IF ops[i].op = "base" THEN TreesOfOps(ops[i].ops, 1, TRUE)
+        ELSE IF withKeys THEN <<<<KeyValueOf(ops[i]), TreeOfOp(ops[i])>>>> ELSE <<TreeOfOp(ops[i])>>) \o TreesOfOps(ops, i + 1, withKeys)
 TreeOfOp(op) ==
   IF op.op \in {"req", "elem"} THEN <<"leaf", op.t, op.v>>
   ELSE IF op.op = "obj" THEN <<"obj", TreesOfOps(op.ops, 1, TRUE)>>
